@@ -809,7 +809,7 @@ MUTANTS = [
                         let field_type = &field.ty;
 
                         if false && should_skip(field) {""",
-         expect="C12.a/derive-fixtures/shape/test::EnumWithSkip"),
+         expect="C12.a/derive-fixtures/shape/EnumWithSkip"),
     dict(id="C12.e-range-start-end-swapped", prop="C12", file="crates/serialize/src/decode.rs",
          old="        let end = T::decode(decoder, plugin, session)?;\n        Ok(start..end)",
          new="        let end = T::decode(decoder, plugin, session)?;\n        Ok(end..start)",
